@@ -880,20 +880,174 @@ func c11runFsync(c *hx.Ctx, cs c11case) error {
 		return nil
 	}
 	c.Hit("fsync:completed-and-switched")
-	// ... and the synced node goes on with the chain
 	x.truth = nil
-	chainfx.Advance(20 * time.Second)
-	if p, err := S.Propose(); err == nil {
-		if err := S.Add(p.Block); err == nil {
-			cb, _ := chainfx.CloneBlock(p.Block)
-			if err := x.add(cb); err != nil {
-				x.fail("C11:synced-node-rejects-next-block", err.Error())
-				return nil
-			}
-			x.replayLine()
+	// the chain goes on by two blocks on S
+	var next []*types.Block
+	for k := 0; k < 2; k++ {
+		chainfx.Advance(20 * time.Second)
+		p, err := S.Propose()
+		if err != nil {
+			break
+		}
+		if err := S.Add(p.Block); err != nil {
+			break
+		}
+		next = append(next, p.Block)
+	}
+	if len(next) == 2 {
+		c11secondSync(x, S, copyMemDB(x.n.DB), top, next)
+		if x.failed {
+			return nil
 		}
 	}
+	// ... and the synced node goes on with the chain
+	for _, b := range next {
+		cb, _ := chainfx.CloneBlock(b)
+		if err := x.add(cb); err != nil {
+			x.fail("C11:synced-node-rejects-next-block", err.Error())
+			return nil
+		}
+	}
+	x.replayLine()
 	return nil
+}
+
+// c11secondSync: a node whose IDENTITY state came from a snapshot import at its head height G (the predefined-genesis
+// path: IdentityState.RecoverSnapshot2 + CommitSnapshot(G), live db prefix = prefix(G)) starts another fast sync while its
+// head is still G.  Two variants: the sync is given up (the real dropPreliminaries) / the sync completes (switch).  Then the
+// node is restarted: its identity state must load with the canonical root and contents, it must follow the chain, and what
+// it serves must replay.  `base` = database of the node at head G.
+func c11secondSync(x *c11chain, S *chainfx.Node, base dbm.DB, G uint64, next []*types.Block) {
+	c := x.c
+	top2 := next[len(next)-1].Height()
+	fail := func(variant, detail string) {
+		x.failed = true
+		c.Fail("C11:preliminary-copy-aliases-live-state", fmt.Sprintf("node with its identity state imported from a snapshot at its head height %d starts a fast sync of %d..%d, which %s; then: %s", G, G+1, top2, variant, detail), x.cs)
+	}
+	// E: identity state imported from a snapshot at G, then restarted
+	e0, err := chainfx.Start(base, x.w.Keys[0], x.w.Cfg(), false)
+	if err != nil || e0.Chain.Head.Height() != G {
+		c.Hit("second-sync:skipped")
+		return
+	}
+	var ibuf bytes.Buffer
+	iroot, err := state.WriteTreeTo2(e0.App.IdentityState.VerifC11Db(), G, &ibuf)
+	if err != nil || iroot != e0.Chain.Head.IdentityRoot() {
+		c.Hit("second-sync:skipped")
+		return
+	}
+	if err := e0.App.IdentityState.RecoverSnapshot2(G, iroot, bytes.NewReader(ibuf.Bytes())); err != nil {
+		c.Fail("C11:clean-import-refused", "identity tree import at the head height: "+err.Error(), x.cs)
+		x.failed = true
+		return
+	}
+	e0.App.IdentityState.CommitSnapshot(G)
+	canonG := identityContents(e0.App.IdentityState)
+	var snap bytes.Buffer
+	if _, err := S.App.State.WriteSnapshot2(top2, &snap); err != nil {
+		return
+	}
+	serve := func() (hdrs []*types.Header, certs []*types.BlockCert, diffs []*state.IdentityStateDiff) {
+		for hh := G + 1; hh <= top2; hh++ {
+			hdr, diff, _ := protocol.VerifC11Wire(S.Chain.GetBlockHeaderByHeight(hh), S.Chain.GetIdentityDiff(hh))
+			hdrs, certs, diffs = append(hdrs, hdr), append(certs, nil), append(diffs, diff)
+		}
+		return
+	}
+	saveN := x.n
+	defer func() { x.n = saveN }()
+	for vi, variant := range []string{"is given up (dropPreliminaries)", "completes (switch)"} {
+		db := copyMemDB(base)
+		e1, err := chainfx.Start(db, x.w.Keys[0], x.w.Cfg(), false)
+		if err != nil {
+			fail(variant, "(before the sync) the node with the imported identity state does not start: "+err.Error())
+			return
+		}
+		if e1.App.IdentityState.Root() != iroot || identityContents(e1.App.IdentityState) != canonG {
+			fail(variant, "(before the sync) the imported identity state does not reload with the canonical root and contents")
+			return
+		}
+		live, _ := e1.App.IdentityState.VerifC11PrefixHeights()
+		fs := protocol.VerifC11NewFastSync(e1.Chain, e1.App, e1.Cfg)
+		if lo, err := fs.PreConsuming(e1.Chain.Head); err != nil || lo != G+1 {
+			fail(variant, fmt.Sprintf("preConsuming: from=%d err=%v", lo, err))
+			return
+		}
+		_, prelim := e1.App.IdentityState.VerifC11PrefixHeights()
+		if vi == 0 {
+			ds := "distinct"
+			if prelim == live {
+				ds = "same"
+			}
+			c.Line(fmt.Sprintf("prelimprefix %d %d", live, G), fmt.Sprintf("prefix %d %s", prelim, ds))
+		}
+		if at, err := fs.Apply(serve()); err != nil {
+			fail(variant, fmt.Sprintf("applyDeferredBlocks refused honest blocks at %d: %v", at, err))
+			return
+		}
+		wantHead := G
+		if vi == 0 {
+			if err := fs.Drop(); err != nil {
+				fail(variant, "dropPreliminaries: "+err.Error())
+				return
+			}
+		} else {
+			if err := fs.Finish(snap.Bytes()); err != nil {
+				fail(variant, "snapshot import / switch: "+err.Error())
+				return
+			}
+			time.Sleep(30 * time.Millisecond) // the switch clears the replaced databases asynchronously
+			wantHead = top2
+		}
+		c.Rep.Evaluations++
+		// restart
+		e2, err := chainfx.Start(db, x.w.Keys[0], x.w.Cfg(), false)
+		if err != nil {
+			fail(variant, "the node does not start again: "+err.Error())
+			return
+		}
+		if e2.Chain.Head.Height() != wantHead {
+			fail(variant, fmt.Sprintf("after the restart the head is %d, expected %d", e2.Chain.Head.Height(), wantHead))
+			return
+		}
+		if e2.App.IdentityState.Root() != e2.Chain.Head.IdentityRoot() || e2.App.IdentityState.Root() != S.Chain.GetBlockHeaderByHeight(wantHead).IdentityRoot() {
+			fail(variant, "after the restart the identity state does not have the canonical root of the head")
+			return
+		}
+		if vi == 0 && identityContents(e2.App.IdentityState) != canonG {
+			fail(variant, "after the restart the identity state does not have the canonical contents")
+			return
+		}
+		for _, b := range next {
+			if b.Height() <= e2.Chain.Head.Height() {
+				continue
+			}
+			cb, _ := chainfx.CloneBlock(b)
+			if err := e2.Add(cb); err != nil {
+				fail(variant, fmt.Sprintf("after the restart the node rejects canonical block %d: %v", b.Height(), err))
+				return
+			}
+		}
+		if e2.App.IdentityState.Root() != S.App.IdentityState.Root() || e2.App.State.Root() != S.App.State.Root() || identityContents(e2.App.IdentityState) != identityContents(S.App.IdentityState) {
+			fail(variant, "at the canonical head the node's roots / identity contents differ from the serving node's")
+			return
+		}
+		for hh := G + 1; hh <= top2; hh++ {
+			if _, ok := x.actual[hh]; !ok {
+				x.actual[hh] = S.Chain.GetIdentityDiff(hh) // S never reorganised: what it stores is its blocks' own diffs
+				defer delete(x.actual, hh)
+			}
+		}
+		x.n = e2
+		x.sigOverride, x.sigNote = "C11:preliminary-copy-aliases-live-state", "second fast sync that "+variant+", restart; then: "
+		ans := x.replayAll(false)
+		x.sigOverride, x.sigNote = "", ""
+		x.n = saveN
+		if !strings.HasPrefix(ans, "ok") {
+			return
+		}
+		c.Hit(fmt.Sprintf("second-sync:variant%d-ok", vi))
+	}
 }
 
 // c11switchSweep: crash sweep over the end of the fast sync: snapshot import (RecoverSnapshot2 + SaveForcedVersion) and the
